@@ -19,7 +19,7 @@ TEXT = ("P1 (purity / effect analysis): the transitive callee closure inside the
         "Display templates (decoded from the format_args! template constants) equal the literal separators and "
         "named-group order of the parser's regex constants, for Revision and for DeltaId. P4: eq and hash read the same "
         "field set, partial_cmp = Some(cmp), cmp yields Equal only on equal printed forms, which cover every field. "
-        "Does not decide collision-freeness of the 28-bit tail."
+        "P1 also requires digest_object to serialise the object itself (viewed), not a re-rendered copy. Does not decide collision-freeness of the 28-bit tail."
         " P4b: eq answers true only under equality of every field, hash feeds every field on every path.")
 TECHNIQUE = 'static analysis over rustc MIR: field provenance of revision constructors, print/parse template agreement, Eq/Hash/Ord field-set consistency and symbolic evaluation of the comparator'
 TRUSTED = ["rustc nightly MIR", "sha2, hex, regex, serde_json behave as documented", "format_args! template encoding of this nightly (0xC0 = plain placeholder, n<0x80 = literal of n bytes)"]
@@ -147,6 +147,32 @@ def run(facts, res):
             for x in walk(t):
                 if x[0] == "call" and callee_name(x) == "digest_string" and contains_call(x, "to_string") and any(y[0] == "param" and y[1] == 1 for y in walk(x)):
                     ok = True
+        if not ok:
+            # closure form: `o.get(HASH).map_or_else(|| Ok(digest_string(&to_string(o))), ..)`: the closure's Ok value, the object captured
+            for cb_ in facts.closures_of(do.path):
+                for bi, st in assigns_of_return(cb_, "Ok"):
+                    t = du_of(cb_).rvalue_term(st.rv, 20)
+                    for x in walk(t):
+                        if x[0] == "call" and callee_name(x) == "digest_string" and contains_call(x, "to_string") and \
+                                any(y[0] == "upvar" and do.local_ty(1) and y[2].split(".")[0] == do.local_name(1) for y in walk(x)):
+                            ok = True
+        # ... of the object itself: what is serialised is the parameter, viewed - not a re-rendered copy (numbers "normalised", keys
+        # re-cased): the pack stores the bytes of the object as submitted, and reload re-derives every digest from those bytes
+        whole_ = None
+        for cb_ in [do] + facts.closures_of(do.path):
+            for bi, t in cb_.calls():
+                if t.callee is None or t.callee.name != "to_string" or "serde_json" not in t.callee.path or not t.args:
+                    continue
+                a_ = arg_term(cb_, t, 0, 12)
+                hops_ = 0
+                while hops_ < 20 and a_[0] in ("ref", "deref", "cast", "var"):
+                    hops_ += 1
+                    a_ = a_[3] if a_[0] == "var" else a_[1]
+                whole_ = (whole_ is not False) and ((a_[0] == "param" and a_[1] == 1) or (a_[0] == "upvar" and a_[2].split(".")[0] == do.local_name(1)))
+        if whole_ is False:
+            res.violation("P1", "digest_object|hashes-a-derived-copy",
+                          "digest_object serialises a value derived from the object instead of the object itself: the digest no longer equals the hash of "
+                          "the bytes that are stored for it, so a reopened replica cannot find the object", do.loc())
         res.instance("P1", "digest_object = digest_string(serde_json::to_string(object)): %s" % ok, do.loc())
         if not ok:
             res.violation("P1", "digest_object|not-hash-of-serialisation", "digest_object no longer returns digest_string(serde_json::to_string(o)) for ordinary objects", do.loc())
